@@ -40,6 +40,7 @@ import XotModel.Lemmas.RepairKeepTop
 import XotModel.Lemmas.RepairValid
 import XotModel.Lemmas.SerResolveTop
 import XotModel.Lemmas.RepairRoundTripDoc
+import XotModel.Lemmas.RepairRoundTripElement
 import XotModel.Props.C01
 
 namespace XotModel.Props
@@ -972,6 +973,43 @@ theorem C10_repair_roundtrip_fragment (env : Env) (t : Tree) (hr : Representable
   rw [k3]
   exact deepEqual_of_stripNs h3' (allNodes_ext e t h3) hframe
 
+/-- A PARENTLESS element (a clone, a freshly built subtree) whose one-element document is representable:
+    after `create_missing_prefixes(element)` the element serialises ON ITS OWN (`to_string(element)`) and
+    the text parses back to the document holding exactly the repaired element, `deep_equal` to the
+    document holding the element before the call.  (For an element INSIDE a document see
+    `C10_repair_representable_element`: the document stays in the domain and the element's subtree is
+    writable, `C10_repair_writable`; `to_string(inner element)`, which also writes the declarations in
+    scope, is not covered by the round-trip theorem.) -/
+theorem C10_repair_roundtrip_element (env : Env) (name : Nat) (ks : List Tree)
+    (hr : Representable env (.node .document [.node (.element name) ks]) = true)
+    (htab : nameTableOK env = true) (env' : Env) (T' : Tree)
+    (h : createMissingPrefixes env (.node (.element name) ks) [] = .ok (env', T')) :
+    Representable env' (.node .document [T']) = true ∧ namesWritable env' T' [] = some true ∧
+    ∃ s p, toXmlString env' T' [] = .ok s ∧ parseString .document env' s = .ok p ∧
+      p.tree = .node .document [T'] ∧ p.env = env' ∧
+      deepEqual p.tree (.node .document [.node (.element name) ks]) = true := by
+  obtain ⟨e, k, hr'⟩ := createMissingPrefixes_root_element_keeps env name ks hr htab env' T' h
+  have hr0 := hr
+  simp only [Representable, Bool.and_eq_true] at hr0
+  obtain ⟨he, _, hok⟩ := allNodes_of_representableFragment hr0.1
+  have hokT : (Tree.node (.element name) ks).allNodes (nodeOK env) = true := allNodes_kid hok (by simp)
+  have hu := uniqueBelow_of_allNodes _ hokT
+  have hEnvOk := envOk_of_envOK he
+  have hw := C10_repair_writable env hEnvOk _ [] name ks rfl hu env' T' h
+  have hframe := (C10_repair_frame env hEnvOk _ [] name ks rfl hu env' T' h).1
+  have hel' : T'.value.isElement = true := by rw [k.value]; rfl
+  obtain ⟨name', ks', rfl⟩ := isElement_node hel'
+  have hwd : namesWritable env' (.node .document [.node (.element name') ks']) [] = some true := by
+    rw [namesWritable_wrap]; exact hw
+  obtain ⟨s, p, k1, k2, k3, k4, _⟩ := roundtrip_element_writable env' _
+    (by simp only [RepresentableElement, Bool.and_eq_true]; exact ⟨rfl, hr'⟩) hwd
+  refine ⟨hr', hw, s, p, k1, k2, k3, k4, ?_⟩
+  rw [k3]
+  have hr1 := representable_ext e hr
+  simp only [Representable, Bool.and_eq_true] at hr' hr1
+  exact deepEqual_of_stripNs (allNodes_of_representableFragment hr'.1).2.2
+    (allNodes_of_representableFragment hr1.1).2.2 (stripNs_wrap rfl rfl hframe)
+
 /-- Non-vacuity, closed (tables `c01Env` of Props/C01): `<!--h--><r k="v"><c/><t/></r>` with `r` in
     `urn:a`, `c` in `urn:b`, nothing declared: representable, NOT writable; the call registers `n0`, `n1`
     and the result serialises to `<!--h--><n0:r xmlns:n0="urn:a" xmlns:n1="urn:b" k="v"><n1:c/><t/></n0:r>`. -/
@@ -992,6 +1030,14 @@ example : ∃ env' t' s p, createMissingPrefixes c01Env c10RtDoc [] = .ok (env',
     Representable env' t' = true ∧ namesWritable env' t' [] = some true ∧ toXmlString env' t' [] = .ok s ∧
     parseString .document env' s = .ok p ∧ p.tree = t' ∧ p.env = env' ∧ deepEqual p.tree c10RtDoc = true :=
   C10_repair_roundtrip_total c01Env c10RtDoc (by decide) (by decide)
+
+example : ∃ env' T' s p, createMissingPrefixes c01Env (.node (.element 2) [.node (.element 3) []]) [] = .ok (env', T') ∧
+    toXmlString env' T' [] = .ok s ∧ parseString .document env' s = .ok p ∧
+    deepEqual p.tree (.node .document [.node (.element 2) [.node (.element 3) []]]) = true := by
+  obtain ⟨env', T', h⟩ := (C10_repair_never_panics c01Env (.node (.element 2) [.node (.element 3) []]) [] _ rfl).2.2.2
+    (Or.inl rfl)
+  obtain ⟨_, _, s, p, k1, k2, _, _, k5⟩ := C10_repair_roundtrip_element c01Env 2 _ (by decide) (by decide) env' T' h
+  exact ⟨env', T', s, p, h, k1, k2, k5⟩
 
 /-- `nameTableOK` is needed (closed): with a name in the namespace `U+0001` the document is representable,
     the call succeeds, and the repaired document is no longer representable (`xmlns:n0="&#x1;"`). -/
